@@ -137,6 +137,10 @@ VF_MAIN
 #ifdef KF_C17_LAZY_INIT      /* known finding excluded: first use happens before the threads start */
   lsx_init_fft_cache();
 #endif
+#ifdef VF_WARM                /* an earlier, completed transform of this length: the threads then meet a filled cache, so that calls up to this
+                               * length are concurrent READERS (with an empty cache every first call is a writer) */
+  { double * dummy0 = 0; lsx_safe_rdft(VF_WARM, 1, dummy0); }
+#endif
   __CPROVER_ASYNC_1: thread_body(0);
 #if VF_THREADS > 1
   __CPROVER_ASYNC_2: thread_body(1);
